@@ -48,7 +48,7 @@ def generate(ctx, families=GEN_FAMILIES, deep=None):
 def prog_like(ctx, prop, families=GEN_FAMILIES, deep=True, trace=False, soups=0, layouts=None, prune=None):
     ctx.build_harness()
     thorough = ctx.tier == "thorough"
-    outs = generate(ctx, families, deep=(((2500, 60, 40) if thorough else (100, 40, 24)) if deep else None))
+    outs = generate(ctx, families, deep=(((250, 60, 40) if thorough else (100, 40, 24)) if deep else None))
     argv = ["prog-replay", "--property", prop, "--cases", ",".join(outs), "--seed", ctx.seed,
             "--layouts", layouts or (8 if thorough else 4), "--out", "prog.json", "--soups", soups,
             "--prune", prune or 3]
